@@ -191,7 +191,10 @@ type Query struct {
 	OrderBy               []core.OrderBy
 	Offset                int
 	Limit                 int
-	ForceFresh            bool
+	// HasLimit is true if the query has a LIMIT clause (even LIMIT 0, which asks
+	// for no rows and is otherwise indistinguishable from having no limit)
+	HasLimit   bool
+	ForceFresh bool
 }
 
 // TableFor returns the table in the FROM clause of this query
@@ -652,6 +655,7 @@ func (q *Query) applyLimit(stmt *sqlparser.Select) error {
 				return fmt.Errorf("Unable to parse limit %v: %v", _limit, err)
 			}
 			q.Limit = limit
+			q.HasLimit = true
 		}
 
 		if stmt.Limit.Offset != nil {
